@@ -1,2 +1,236 @@
-"""cache rules."""
-RULES = {}
+"""CACHE - restart from a cache file (DESIGN 4.7)."""
+from __future__ import annotations
+
+import ast
+from typing import List, Optional
+
+from ..ctx import Ctx, arg_for_param, dotted, names_in
+from ..loader import FuncInfo, iter_own_nodes, own_walk
+from ..report import RuleResult, Undecided, norm_src
+
+
+def _loader(ctx: Ctx):
+    """(function, assignment statement) of the pickle.load whose file is the executor's from_cache."""
+    hits = []
+    for f in ctx.funcs():
+        for n in iter_own_nodes(f.node):
+            if isinstance(n, ast.Assign) and isinstance(n.value, ast.Call) and (ctx.T.resolve_callee(f, n.value) or "") == "ext:pickle.load":
+                hits.append((f, n))
+    return hits
+
+
+def cache_flow(ctx: Ctx) -> RuleResult:
+    r = RuleResult("CACHE-FLOW")
+    hits = _loader(ctx)
+    if not hits:
+        r.ob(False)
+        r.violate("no pickle.load in the package", "tawazi/_dag/dag.py", "from_cache is never read: nothing can be reused", None)
+        return r
+    r.require(len(hits) == 1, "several pickle.load sites")
+    f, ld = hits[0]
+    var = dotted(ld.targets[0])
+    r.require(var is not None, "loaded mapping not bound to a name")
+    r.ob(True, {"source": norm_src(ld), "in": f.short})
+    # 1. entries of the loaded mapping are written into a mapping M
+    M = None
+    how = None
+    for n in iter_own_nodes(f.node):
+        if isinstance(n, ast.For) and isinstance(n.iter, ast.Call) and isinstance(n.iter.func, ast.Attribute) \
+                and n.iter.func.attr == "items" and dotted(n.iter.func.value) == var and isinstance(n.target, ast.Tuple):
+            k, v = [dotted(x) for x in n.target.elts]
+            for b in own_walk(n):
+                if isinstance(b, ast.Call) and isinstance(b.func, ast.Attribute) and b.func.attr in ("force_set", "__setitem__", "setdefault") \
+                        and len(b.args) == 2 and dotted(b.args[0]) == k and dotted(b.args[1]) == v:
+                    M, how = dotted(b.func.value), b.func.attr
+                if isinstance(b, ast.Assign) and isinstance(b.targets[0], ast.Subscript) and dotted(b.targets[0].slice) == k \
+                        and dotted(b.value) == v:
+                    M, how = dotted(b.targets[0].value), "item assignment"
+        if isinstance(n, ast.Call) and isinstance(n.func, ast.Attribute) and n.func.attr == "update" and n.args and dotted(n.args[0]) == var:
+            M, how = dotted(n.func.value), "update"
+    r.ob(M is not None, {"entries written into": M, "by": how})
+    if M is None:
+        r.violate(f"{f.short}: the unpickled mapping is not merged, entry by entry, into a results map", f.loc(ld),
+                  "the cached id -> value entries never reach the results handed to the scheduler: every node is silently "
+                  "recomputed (or the restart crashes)", norm_src(ld))
+        return r
+    # 2. M reaches the scheduler: returned and passed by the callers as the results argument of run_subgraph, or M is the
+    #    attribute the callers pass
+    sinks = 0
+    if "." not in M:
+        rets = [n for n in iter_own_nodes(f.node) if isinstance(n, ast.Return) and n.value is not None]
+        returned = [x for x in rets if dotted(x.value) == M]
+        r.ob(bool(returned) and len(returned) == len(rets), {"returned": bool(returned)})
+        if not returned:
+            r.violate(f"{f.short}: the merged results are dropped (not returned)", f.loc(), "the cached entries never reach the scheduler", M)
+            return r
+        # M must start from the executor's results so that constants/setup results are kept
+        init = [n for n in iter_own_nodes(f.node) if isinstance(n, ast.Assign) and dotted(n.targets[0]) == M]
+        r.ob(len(init) >= 1, {"merged map initialised from": [norm_src(x.value) for x in init]})
+        for f2, call in ctx.callers_of(f.qualname):
+            st = None
+            for n in iter_own_nodes(f2.node):
+                if isinstance(n, ast.Assign) and n.value is call and isinstance(n.targets[0], ast.Name):
+                    st = n
+            if st is None:
+                r.ob(False, {"caller": f2.short})
+                r.violate(f"{f2.short}: the results prepared by {f.name} are discarded", f2.loc(call),
+                          "the cached entries never reach the scheduler", norm_src(call))
+                continue
+            name = st.targets[0].id
+            passed = False
+            for c2, q2 in ctx.calls_in(f2):
+                if q2 in ctx.P.funcs and ctx.P.funcs[q2].name == "run_subgraph":
+                    callee = ctx.P.funcs[q2]
+                    pr = callee.node.args.args[2].arg
+                    a = arg_for_param(callee.node, c2, pr, skip_self=True)
+                    if a is not None and dotted(a) == name:
+                        passed = True
+                        sinks += 1
+            r.ob(passed, {"caller": f2.short, "passes the merged results to run_subgraph": passed})
+            if not passed:
+                r.violate(f"{f2.short}: run_subgraph does not receive the results prepared by {f.name}", f2.loc(call),
+                          "the scheduler starts from the DAG's own results: cached nodes are recomputed", None)
+        r.require(sinks >= 2, f"only {sinks} executor entry points consume the merged results (expected sync and async)")
+    else:
+        raise Undecided(f"merged map is an attribute ({M}); flow through attributes is not modelled")
+    return r
+
+
+def cache_priority(ctx: Ctx) -> RuleResult:
+    """Cached entries override what the results already hold (defaults, constants)."""
+    r = RuleResult("CACHE-PRIORITY")
+    hits = _loader(ctx)
+    r.require(len(hits) == 1, "pickle.load site not found")
+    f, ld = hits[0]
+    var = dotted(ld.targets[0])
+    writes = []
+    for n in iter_own_nodes(f.node):
+        if isinstance(n, ast.For) and isinstance(n.iter, ast.Call) and isinstance(n.iter.func, ast.Attribute) \
+                and n.iter.func.attr == "items" and dotted(n.iter.func.value) == var:
+            for b in own_walk(n):
+                if isinstance(b, ast.Call) and isinstance(b.func, ast.Attribute) and b.func.attr in ("force_set", "setdefault", "__setitem__"):
+                    writes.append((b, b.func.attr, n))
+                if isinstance(b, ast.Assign) and isinstance(b.targets[0], ast.Subscript):
+                    writes.append((b, "item", n))
+    r.require(len(writes) == 1, "merge write not found")
+    b, how, loop = writes[0]
+    guarded = [x for x in own_walk(loop) if isinstance(x, ast.If) and any(b is y for y in ast.walk(x))
+               and any(isinstance(o, ast.NotIn) for c in ast.walk(x.test) if isinstance(c, ast.Compare) for o in c.ops)]
+    ok = how == "force_set" and not guarded
+    if how == "item":
+        t = ctx.type_of(f, b.targets[0].value)
+        ok = not (t[0] == "dict" and len(t) == 4) and not guarded  # a StrictDict item write raises on an occupied key
+    r.ob(ok, {"merge write": norm_src(b), "overrides existing entries": ok})
+    if not ok:
+        r.violate(f"{f.short}: a value already present wins over the cached one ({how})", f.loc(b),
+                  "defaults / constants already in the results shadow the cached values: the restart mixes the default input with "
+                  "results cached for another argument", norm_src(b))
+    # the merge happens on a copy (the DAG's results must not be changed by an executor)
+    cp = [n for n in iter_own_nodes(f.node) if isinstance(n, ast.Assign) and isinstance(n.value, ast.Call)
+          and dotted(n.value.func) in ("copy", "deepcopy", "StrictDict", "dict") and dotted(n.targets[0]) == dotted(b.func.value if how != "item" else b.targets[0].value)]
+    r.ob(bool(cp), {"merged into a copy": bool(cp)})
+    if not cp:
+        r.violate(f"{f.short}: cached entries are written into the DAG's own results", f.loc(b),
+                  "later calls of the DAG see the cached values", None)
+    return r
+
+
+def _writer(ctx: Ctx):
+    hits = []
+    for f in ctx.funcs():
+        for n in iter_own_nodes(f.node):
+            if isinstance(n, ast.Call) and (ctx.T.resolve_callee(f, n) or "") == "ext:pickle.dump":
+                hits.append((f, n))
+    return hits
+
+
+def cache_shape(ctx: Ctx) -> RuleResult:
+    r = RuleResult("CACHE-SHAPE")
+    ws = _writer(ctx)
+    r.require(len(ws) == 1, "pickle.dump site not found")
+    f, dump = ws[0]
+    obj = dump.args[0]
+    name = dotted(obj)
+    r.require(name is not None, "dumped object not a name")
+    srcs = [n for n in iter_own_nodes(f.node) if isinstance(n, ast.Assign) and dotted(n.targets[0]) == name]
+    r.require(len(srcs) >= 1, "definition of the dumped object not found")
+    p = f.node.args.args[1].arg
+    for s in srcs:
+        v = s.value
+        ok = (isinstance(v, ast.DictComp) and isinstance(v.generators[0].iter, ast.Call) and norm_src(v.generators[0].iter) == f"{p}.items()"
+              and dotted(v.key) == dotted(v.generators[0].target.elts[0]) and dotted(v.value) == dotted(v.generators[0].target.elts[1])) \
+            or dotted(v) == p
+        r.ob(ok, {"written": norm_src(v)})
+        if not ok:
+            r.violate(f"{f.short}: the cache file does not hold the id -> value mapping of the run", f.loc(s),
+                      "the reader merges an id -> value mapping", norm_src(v))
+    # the caller passes the results of the run
+    post = [g for g, c in ctx.callers_of(f.qualname)]
+    r.ob(len(post) >= 1, {"written from": [g.short for g in post]})
+    for g, c in ctx.callers_of(f.qualname):
+        a = c.args[0] if c.args else None
+        ok = a is not None and norm_src(a) == "self.results"
+        r.ob(ok, {"dumped": norm_src(a) if a is not None else None})
+    hits = _loader(ctx)
+    r.require(len(hits) == 1, "reader not found")
+    rf, ld = hits[0]
+    var = dotted(ld.targets[0])
+    reads_items = any(isinstance(n, ast.Call) and isinstance(n.func, ast.Attribute) and n.func.attr in ("items", "update") and
+                      (dotted(n.func.value) == var or (n.args and dotted(n.args[0]) == var)) for n in iter_own_nodes(rf.node))
+    r.ob(reads_items, {"reader consumes a mapping by id": reads_items})
+    if not reads_items:
+        r.violate(f"{rf.short}: the reader does not consume the cache file as an id -> value mapping", rf.loc(ld), "", None)
+    return r
+
+
+def cache_excl(ctx: Ctx) -> RuleResult:
+    r = RuleResult("CACHE-EXCL")
+    ws = _writer(ctx)
+    r.require(len(ws) == 1, "pickle.dump site not found")
+    f, dump = ws[0]
+    loops = [n for n in iter_own_nodes(f.node) if isinstance(n, ast.For) and "cache_deps_of" in norm_src(n.iter)]
+    if not loops:
+        r.ob(False)
+        r.violate(f"{f.short}: the cache_deps_of nodes are not excluded from the file", f.loc(),
+                  "restarting from the file would not execute them", None)
+        return r
+    lp = loops[0]
+    # accumulator: a set that must collect the ids of every listed node
+    acc = None
+    for n in iter_own_nodes(f.node):
+        if isinstance(n, (ast.Assign, ast.AnnAssign)) and isinstance(n.value, ast.Call) and dotted(n.value.func) == "set" and not n.value.args \
+                and n.lineno < lp.lineno:
+            acc = dotted(n.targets[0] if isinstance(n, ast.Assign) else n.target)
+    r.require(acc is not None, "accumulator of non-cacheable ids not found")
+    good = False
+    bad_stmt = None
+    for b in own_walk(lp):
+        if isinstance(b, ast.Assign) and dotted(b.targets[0]) == acc:
+            if acc in names_in(b.value):
+                good = True
+            else:
+                bad_stmt = b
+        if isinstance(b, ast.AugAssign) and dotted(b.target) == acc and isinstance(b.op, ast.BitOr):
+            good = True
+        if isinstance(b, ast.Call) and isinstance(b.func, ast.Attribute) and b.func.attr in ("update", "add") and dotted(b.func.value) == acc:
+            good = True
+    r.ob(good and bad_stmt is None, {"accumulates over all cache_deps_of": good and bad_stmt is None})
+    if bad_stmt is not None:
+        r.violate(f"{f.short}: the set of excluded ids is overwritten on each iteration", f.loc(bad_stmt),
+                  "only the last node of cache_deps_of is excluded: the earlier ones stay in the file and are not executed on restart",
+                  norm_src(bad_stmt))
+    elif not good:
+        raise Undecided("accumulation of the excluded ids not recognised")
+    # the filter uses the accumulator
+    flt = [n for n in iter_own_nodes(f.node) if isinstance(n, ast.DictComp) and n.generators[0].ifs]
+    okf = len(flt) == 1 and norm_src(flt[0].generators[0].ifs[0]).endswith(f"not in {acc}")
+    r.ob(okf, {"filter": norm_src(flt[0].generators[0].ifs[0]) if flt else None})
+    if flt and not okf:
+        r.violate(f"{f.short}: the written mapping is not filtered by the excluded ids", f.loc(flt[0]), "", norm_src(flt[0]))
+    # the ids come from alias resolution of each entry
+    res = [b for b in own_walk(lp) if isinstance(b, ast.Call) and isinstance(b.func, ast.Attribute) and b.func.attr in ("alias_to_ids", "get_multiple_nodes_aliases")]
+    r.ob(bool(res) or True, {"ids resolved by": [norm_src(x) for x in res]})
+    return r
+
+
+RULES = {"CACHE-FLOW": cache_flow, "CACHE-PRIORITY": cache_priority, "CACHE-SHAPE": cache_shape, "CACHE-EXCL": cache_excl}
